@@ -13,6 +13,7 @@ oracle     : operators are drawn from per-case pools and REUSED as objects (echo
              with exp(-b:D) from Gauss-Legendre quadrature of k(t)^T D k(t) (independent of the package), against
              operator application and epg.simulate; the D objects' instance attributes must be unchanged afterwards
 """
+import os
 import itertools, os, re
 import numpy as np
 from fractions import Fraction
@@ -364,7 +365,7 @@ def run_tie(ctx, goals, meta):
     nsh = min(core.NPROC, max(1, len(goals) // 6))
     files = []
     for s in range(nsh):
-        path = os.path.join(core.CASES, "%s_tie_%d.v" % (ctx.pid, s))
+        path = os.path.join(core.CASES, "%s_p%d_tie_%d.v" % (ctx.pid, os.getpid(), s))
         with open(path, "w") as f:
             f.write(TIE_HEADER + "\n".join(goals[s::nsh]) + "\n")
         files.append(path)
